@@ -12,5 +12,7 @@ CONSTANTS
   MaxVariants = 0
   MinEmit = 0
   SimMode = FALSE
+  VarLens = {0}
+  VarW = {1, 2, 3}
 INVARIANT ImplRefines
 INVARIANT InvWellFormed
